@@ -9,6 +9,9 @@ package interp
 import (
 	"fmt"
 	"go/token"
+	"go/types"
+	"sort"
+	"strings"
 
 	"golang.org/x/tools/go/ssa"
 )
@@ -59,4 +62,100 @@ func (e *Engine) noteMutex(fr *frame, kind string, ptr value) {
 		}
 	}
 	e.Events = append(e.Events, SyncEvent{Kind: kind, Obj: name})
+}
+
+// ---------------------------------------------------------------- shared cells
+//
+// MarkShared records every memory cell reachable from the package-level variables of
+// the packages whose path starts with prefix (mutexes excluded).  While TraceEvents is
+// set, loads and stores of marked cells are logged as read / write events on
+// "cell:<root variable>" with the cell's identity as key, so that unsynchronised state
+// other than maps (a shared hasher, buffer, counter ...) is visible to the C20 encoder.
+// Cells allocated after MarkShared are private to the call that allocates them.
+
+func isSyncType(t types.Type) bool {
+	if n, ok := t.(*types.Named); ok && n.Obj().Pkg() != nil {
+		p := n.Obj().Pkg().Path()
+		return p == "sync" || p == "sync/atomic"
+	}
+	return false
+}
+
+func (e *Engine) MarkShared(prefix string) int {
+	e.SharedCells = map[*value]string{}
+	e.cellIDs = map[*value]int{}
+	seenMap := map[*omap]bool{}
+	type item struct {
+		v    value
+		root string
+	}
+	var work []item
+	markCell := func(c *value, root string) {
+		if c == nil {
+			return
+		}
+		if _, ok := e.SharedCells[c]; ok {
+			return
+		}
+		e.SharedCells[c] = root
+		e.cellIDs[c] = len(e.cellIDs)
+		work = append(work, item{*c, root})
+	}
+	var gs []*ssa.Global
+	for g := range e.i.globals {
+		gs = append(gs, g)
+	}
+	sort.Slice(gs, func(i, j int) bool { return gs[i].String() < gs[j].String() })
+	for _, g := range gs {
+		if g.Pkg == nil || !strings.HasPrefix(g.Pkg.Pkg.Path(), prefix) || strings.Contains(g.Pkg.Pkg.Path(), "zzverif") {
+			continue
+		}
+		if pt, ok := g.Type().(*types.Pointer); ok && isSyncType(pt.Elem()) {
+			continue
+		}
+		markCell(e.i.globals[g], g.String())
+	}
+	for len(work) > 0 {
+		it := work[len(work)-1]
+		work = work[:len(work)-1]
+		switch v := it.v.(type) {
+		case *value:
+			markCell(v, it.root)
+		case structure:
+			for i := range v {
+				markCell(&v[i], it.root)
+			}
+		case array:
+			for i := range v {
+				markCell(&v[i], it.root)
+			}
+		case []value:
+			for i := range v {
+				markCell(&v[i], it.root)
+			}
+		case iface:
+			work = append(work, item{v.v, it.root})
+		case *omap:
+			if v != nil && !seenMap[v] {
+				seenMap[v] = true
+				for _, en := range v.ents {
+					if !en.dead {
+						work = append(work, item{en.key, it.root}, item{en.val, it.root})
+					}
+				}
+			}
+		}
+	}
+	return len(e.SharedCells)
+}
+
+func (e *Engine) noteCell(fr *frame, kind string, addr *value, pos token.Pos) {
+	if e == nil || !e.TraceEvents || e.SharedCells == nil {
+		return
+	}
+	root, ok := e.SharedCells[addr]
+	if !ok {
+		return
+	}
+	e.Events = append(e.Events, SyncEvent{Kind: kind, Obj: "cell:" + root, Key: fmt.Sprintf("#%d", e.cellIDs[addr]), Where: fr.i.prog.Fset.Position(pos).String()})
 }
